@@ -141,7 +141,7 @@ Next ==
      /\ \E k \in DOMAIN LAlph.syms : c' = [c EXCEPT !.w = Append(@, k)]
   \/ /\ c.lay = "line" /\ Len(c.w) < NPos(c.a)
      /\ \E k \in DOMAIN PosReps(c.a, Len(c.w) + 1) :
-          /\ k = 1 \/ Dev(c.a, c.w) = 0
+          /\ (IF k = 1 THEN TRUE ELSE Dev(c.a, c.w) = 0)   \* no disjunction: TLC would split it
           /\ c' = [c EXCEPT !.w = Append(@, k)]
   \/ /\ c.lay = "line" /\ Len(c.w) >= NPos(c.a) /\ Dev(c.a, c.w) = 0
      /\ Len(c.w) - NPos(c.a) < Recs[c.a].ntag
